@@ -89,8 +89,12 @@ func symDAG(K int) []vnode {
 			continue
 		}
 		// choose children among lower nodes
+		refchain := verifrt.Param("refchain", 0) != 0 // referrer family: config = node 0, no layers, subject forced for i >= 2
 		pick := func() []int {
 			var r []int
+			if refchain {
+				return r
+			}
 			for j := 0; j < i; j++ {
 				if verifrt.Bool() {
 					r = append(r, j)
@@ -99,7 +103,7 @@ func symDAG(K int) []vnode {
 			return r
 		}
 		var subject *ocispec.Descriptor
-		if verifrt.Bool() {
+		if (refchain && i >= 2) || (!refchain && verifrt.Bool()) {
 			// subject: any lower manifest-kind node
 			var cands []int
 			for j := 0; j < i; j++ {
@@ -117,9 +121,15 @@ func symDAG(K int) []vnode {
 		}
 		switch kind {
 		case kindManifest, kindDockerManifest:
-			cfg := verifrt.Choice(i)
+			cfg := 0
+			if !refchain {
+				cfg = verifrt.Choice(i)
+			}
 			n.links = append(n.links, cfg)
 			m := ocispec.Manifest{Versioned: specs.Versioned{SchemaVersion: 2}, Config: nodes[cfg].desc, Subject: subject}
+			if verifrt.Param("distinct", 1) != 0 {
+				m.Annotations = map[string]string{"verif.node": fmt.Sprint(i)} // otherwise equal documents are one object
+			}
 			m.MediaType = ocispec.MediaTypeImageManifest
 			if kind == kindDockerManifest {
 				m.MediaType = "application/vnd.docker.distribution.manifest.v2+json"
@@ -148,6 +158,9 @@ func symDAG(K int) []vnode {
 			n.desc = content.NewDescriptorFromBytes(m.MediaType, b)
 		case kindIndex, kindDockerList:
 			idx := ocispec.Index{Versioned: specs.Versioned{SchemaVersion: 2}, Subject: subject}
+			if verifrt.Param("distinct", 1) != 0 {
+				idx.Annotations = map[string]string{"verif.node": fmt.Sprint(i)}
+			}
 			idx.MediaType = ocispec.MediaTypeImageIndex
 			if kind == kindDockerList {
 				idx.MediaType = "application/vnd.docker.distribution.manifest.list.v2+json"
@@ -319,7 +332,7 @@ func newRecStore(inner content.Storage, nodes []vnode) *recStore {
 func prepopulate(st content.Storage, nodes []vnode) []bool {
 	pre := make([]bool, len(nodes))
 	for i := range nodes {
-		if verifrt.Bool() {
+		if verifrt.Param("nopre", 0) == 0 && verifrt.Bool() {
 			ok := true
 			for _, j := range nodes[i].succ {
 				if !pre[j] {
